@@ -166,9 +166,13 @@ def compare(p, tol_rel, kpm_atol=None):
     if len(p["hs"]) == 2:  # two parameters
         H = {(0, 0): p["h0"], (1, 0): p["hs"][0], (0, 1): p["hs"][1]}
         Hs = {k: sp.csr_array(v) for k, v in H.items()}
+        if p["kpm"] and p["seed"] % 2:
+            Hs = dict(H)   # KPM also accepts dense (non-diagonal, possibly complex) arrays
         nparam = 2
     else:
         Hs = [sp.csr_array(h) for h in H]
+        if p["kpm"] and p["seed"] % 2:
+            Hs = list(H)   # KPM also accepts dense (non-diagonal, possibly complex) arrays
         nparam = 1
     kw = dict(hermitian=herm)
     if p["fully"]:
@@ -250,8 +254,28 @@ def compare(p, tol_rel, kpm_atol=None):
                         if not err <= bound:
                             fails.append("%s[%d,%d,%s]: implicit differs from the embedded explicit result by %.3g (bound %.3g)" % (name, i, j, od, err, bound))
     if p["kpm"] and any(issubclass(w.category, RuntimeWarning) and "did not converge" in str(w.message) for w in wlog):
-        # the KPM clause promises the accuracy only when no convergence warning was emitted
-        fails = [f for f in fails if " raised " in f]
+        # the KPM clause promises the accuracy only when no convergence warning was emitted ...
+        excused = True
+        if p["seed"] % 2 and fails:
+            # ... but the same problem given as SPARSE arrays must then fail to converge as well: a dense presentation
+            # that does not converge while the sparse one does is a defect of the dense path, not a hard problem
+            Hsp = {k: sp.csr_array(v) for k, v in H.items()} if isinstance(H, dict) else [sp.csr_array(h) for h in H]
+            with warnings.catch_warnings(record=True) as wlog2:
+                warnings.simplefilter("always")
+                try:
+                    s2 = block_diagonalize(Hsp, subspace_eigenvectors=expl, direct_solver=False, solver_options=solver_options, **kw)
+                    for od in orders(nparam, p["N"]):
+                        for i in range(nb + 1):
+                            for j in range(nb + 1):
+                                for ser in s2:
+                                    dense(ser[(i, j) + od])
+                except Exception:
+                    pass
+            if not any(issubclass(w.category, RuntimeWarning) and "did not converge" in str(w.message) for w in wlog2):
+                excused = False
+                fails = ["KPM given dense arrays does not converge although the same problem given as sparse arrays does; " + f for f in fails]
+        if excused:
+            fails = [f for f in fails if " raised " in f]
     return fails, compared
 
 
